@@ -22,6 +22,35 @@ LINK = [
       encodes=["Ethernet2Header::read", "SingleVlanHeader::read", "LinuxSllHeader::read", "MacsecHeader::read"]),
 ]
 
+NET = [
+    H("c01_ipv4_header_slice", "c01", unwind=4, bounds="every byte string of length 0..=64",
+      encodes=["Ipv4HeaderSlice::from_slice + all accessors + to_header", "Ipv4Header::from_slice"]),
+    H("c01_ipv4_slice", "c01", unwind=4, bounds="every byte string of length 0..=44",
+      encodes=["Ipv4Slice::from_slice", "IpAuthHeaderSlice::from_slice", "all accessors"]),
+    H("c01_lax_ipv4_slice", "c01", unwind=4, bounds="every byte string of length 0..=44",
+      encodes=["LaxIpv4Slice::from_slice", "all accessors"]),
+    H("c01_ipv4_exts", "c01", unwind=4, bounds="every start ip number x every byte string of length 0..=28",
+      encodes=["Ipv4ExtensionsSlice::from_slice", "Ipv4ExtensionsSlice::from_slice_lax"]),
+    H("c01_auth_slice", "c01", unwind=4, bounds="every byte string of length 0..=28",
+      encodes=["IpAuthHeaderSlice::from_slice + accessors"]),
+    H("c01_ipv6_header_slice", "c01", unwind=4, bounds="every byte string of length 0..=48",
+      encodes=["Ipv6HeaderSlice::from_slice + all accessors + to_header", "Ipv6Header::from_slice"]),
+    H("c01_raw_ext_slice", "c01", unwind=4, bounds="every byte string of length 0..=32",
+      encodes=["Ipv6RawExtHeaderSlice::from_slice", "Ipv6FragmentHeaderSlice::from_slice", "Ipv6FragmentHeader::from_slice", "accessors"]),
+    H("c01_ipv6_exts_strict", "c01", unwind=6, bounds="every start ip number x every byte string of length 0..=32 (<= 4 headers)",
+      encodes=["Ipv6ExtensionsSlice::from_slice", "Ipv6ExtensionSliceIter::next (to exhaustion)", "accessors of every yielded header"]),
+    H("c01_ipv6_exts_lax", "c01", unwind=6, bounds="every start ip number x every byte string of length 0..=32 (<= 4 headers)",
+      encodes=["Ipv6ExtensionsSlice::from_slice_lax", "Ipv6ExtensionSliceIter::next (to exhaustion, also after an early stop)"]),
+    H("c01_ipv6_slice", "c01", unwind=5, timeout=900, bounds="every byte string of length 0..=64, strict and lax constructor",
+      encodes=["Ipv6Slice::from_slice", "Ipv6Slice::from_slice_lax", "extension iterator", "all accessors"]),
+    H("c01_lax_ipv6_slice", "c01", unwind=5, timeout=900, bounds="every byte string of length 0..=64",
+      encodes=["LaxIpv6Slice::from_slice", "extension iterator", "all accessors"]),
+    H("c01_ip_slice", "c01", unwind=5, timeout=900, bounds="every byte string of length 0..=64",
+      encodes=["IpSlice::from_slice", "all accessors", "IpSlice::header"]),
+    H("c01_lax_ip_slice", "c01", unwind=5, timeout=900, bounds="every byte string of length 0..=64",
+      encodes=["LaxIpSlice::from_slice", "all accessors"]),
+]
+
 PROP = {
     "claim": "for every byte string up to the per-harness length N, placed in a heap object of exactly its length, the "
              "decoder, all accessors, conversions and iterators perform no access outside the object (CBMC pointer "
@@ -29,5 +58,5 @@ PROP = {
              "unreachable_unchecked, debug_assert in *_unchecked) and every returned sub-slice lies inside the input",
     "outside": "inputs longer than N; reads of uninitialised memory; aliasing-model UB",
     "assumptions": [],
-    "harnesses": LINK,
+    "harnesses": LINK + NET,
 }
